@@ -7,7 +7,7 @@ import torch
 from hypothesis import strategies as st
 
 from vlib import aggs, refs
-from vlib.matrices import FAMILIES, SEEDS, eps_of, matrices, smax
+from vlib.matrices import case_tensor, widened, FAMILIES, SEEDS, eps_of, matrices, smax
 from vlib.runner import RAISED, Outcome, Part
 
 ID = "C18"
@@ -95,7 +95,10 @@ def _case(draw):
         fams = list(FAMILIES) + ["stationary", "stationary", "conflict"]
         mc = draw(matrices(m_max=6, n_max=8, families=fams, max_scale_exp=3))
         c = draw(st.sampled_from([0.0, 0.5, 1.0, 2.0, 5.0, draw(st.floats(0.0, 5.0))]))
-        return {"kind": "cagrad", "J": mc["J"], "dtype": mc["dtype"], "family": mc["family"], "c": c}
+        # one case in five is wide (CAGrad goes through the normalisation helper shared with UPGrad/DualProj, where
+        # size-keyed paths would live; zero columns leave the geometry untouched)
+        extra = draw(st.sampled_from([None] * 8 + [{"k": 70_000, "kind": "zero"}, {"k": 5000, "kind": "zero"}]))
+        return {"kind": "cagrad", "J": mc["J"], "dtype": mc["dtype"], "family": mc["family"], "c": c, "extra_cols": extra, "xseed": 0}
     if kind == "pcgrad":
         m = draw(st.sampled_from([1, 2, 3, 3, 3, 4]))
         fams = ["gauss", "gauss", "conflict", "svd", "rowscaled", "grid"]
@@ -131,7 +134,7 @@ def _case(draw):
 
 def parts(tier):
     n = 6_000 if tier == "quick" else 150_000
-    return [Part("generated", "given", n=n, strategy=_case)]
+    return [Part("generated", "given", n=n, strategy=lambda: widened(_case(), light=True, skip=lambda c: c.get("kind") == "pcgrad"))]  # (the PCGrad reference enumerates schedules)
 
 
 # ------------------------------------------------------------------------------------------------
@@ -140,7 +143,7 @@ def parts(tier):
 def _mgda(case, out):
     dtype = case["dtype"]
     eps = eps_of(dtype)
-    Jt = torch.tensor(case["J"], dtype=getattr(torch, dtype))
+    Jt = case_tensor(case, getattr(torch, dtype))
     J = Jt.double().numpy()
     m, n = J.shape
     s = smax(J)
@@ -181,7 +184,7 @@ def _mgda(case, out):
 def _random(case, out):
     dtype = case["dtype"]
     eps = eps_of(dtype)
-    Jt = torch.tensor(case["J"], dtype=getattr(torch, dtype))
+    Jt = case_tensor(case, getattr(torch, dtype))
     m = Jt.shape[0]
     A = aggs.make({"name": "Random"}, dtype)
     out.cls("random", f"random:m>={8 if m >= 8 else 1}")
@@ -204,7 +207,7 @@ def _random(case, out):
 def _cagrad(case, out):
     dtype, c = case["dtype"], case["c"]
     eps = eps_of(dtype)
-    Jt = torch.tensor(case["J"], dtype=getattr(torch, dtype))
+    Jt = case_tensor(case, getattr(torch, dtype))
     J = Jt.double().numpy()
     m, n = J.shape
     s = smax(J)
@@ -281,7 +284,7 @@ def _schedules(m):
 def _pcgrad(case, out):
     dtype = case["dtype"]
     eps = eps_of(dtype)
-    Jt = torch.tensor(case["J"], dtype=getattr(torch, dtype))
+    Jt = case_tensor(case, getattr(torch, dtype))
     J = Jt.double().numpy()
     m, n = J.shape
     s = smax(J)
@@ -342,7 +345,7 @@ def _pcgrad(case, out):
 def _graddrop(case, out):
     dtype = case["dtype"]
     eps = eps_of(dtype)
-    Jt = torch.tensor(case["J"], dtype=getattr(torch, dtype))
+    Jt = case_tensor(case, getattr(torch, dtype))
     J = Jt.double().numpy()
     m, n = J.shape
     leak_t = None if case["leak"] is None else torch.tensor(case["leak"], dtype=Jt.dtype)
